@@ -260,7 +260,7 @@ pub fn judge(o: &TrOutcome, fail_at: Option<u64>) -> Check {
         ensure!(!rms.is_empty(), "C16:detached-container-not-removed", "container {name} was started detached but never removed (exit {:?})", o.code);
         ensure!(rms.iter().all(|i| forced(&o.log[*i])), "C16:container-removal-not-forced", "docker rm {name} without --force");
         ensure!(*rms.last().unwrap() == *idxs.last().unwrap(), "C16:container-used-after-removal", "a command names container {name} after its removal");
-        ensure!(rms.len() == 1, "C16:container-removed-twice", "container {name} removed {} times", rms.len());
+        // (the property demands "exactly once" for the image and the volumes only; a repeated forced container removal is harmless)
     }
     // 2. image and both cache volumes: exactly one forced removal, after the last use
     for img in &images {
